@@ -33,9 +33,9 @@ type reqSpec struct {
 }
 
 type input struct {
-	Reqs    []reqSpec   `json:"reqs"`
-	Scripts [][][2]any  `json:"scripts"`
-	Name    string      `json:"name"`
+	Reqs    []reqSpec  `json:"reqs"`
+	Scripts [][][2]any `json:"scripts"`
+	Name    string     `json:"name"`
 }
 
 type obs struct {
@@ -51,8 +51,8 @@ type result struct {
 	Calls   int      `json:"calls"`
 }
 
-var gateKind = map[string]string{"getattr": "GetAttr", "read": "ReadAt", "write": "WriteAt", "walk": "Walk", "mkdir": "Mkdir", "renameat": "RenameAt", "setattr": "SetAttr", "clunk": "Close", "walkover": "Close"}
-var replyType = map[string]string{"getattr": "Rgetattr", "read": "Rread", "write": "Rwrite", "walk": "Rwalk", "mkdir": "Rmkdir", "renameat": "Rrenameat", "setattr": "Rsetattr", "clunk": "Rclunk", "walkover": "Rwalk"}
+var gateKind = map[string]string{"getattr": "GetAttr", "read": "ReadAt", "write": "WriteAt", "walk": "Walk", "mkdir": "Mkdir", "renameat": "RenameAt", "setattr": "SetAttr", "clunk": "Close", "walkover": "Close", "renamedeep": "Renamed"}
+var replyType = map[string]string{"getattr": "Rgetattr", "read": "Rread", "write": "Rwrite", "walk": "Rwalk", "mkdir": "Rmkdir", "renameat": "Rrenameat", "setattr": "Rsetattr", "clunk": "Rclunk", "walkover": "Rwalk", "renamedeep": "Rrenameat"}
 
 type runner struct {
 	t     *wirecodec.Table
@@ -113,7 +113,7 @@ func (rn *runner) run(in *input, si int) (*result, error) {
 			names = []string{fmt.Sprintf("d%d", r.ID)}
 		case "read", "write":
 			names = []string{fmt.Sprintf("f%d", r.ID)}
-		case "mkdir", "renameat":
+		case "mkdir", "renameat", "renamedeep":
 			names = []string{fmt.Sprintf("d%d", r.ID)}
 		}
 		before := len(auto.C.Files())
@@ -121,6 +121,13 @@ func (rn *runner) run(in *input, si int) (*result, error) {
 			return nil, err
 		}
 		_ = before
+		if r.Op == "renamedeep" {
+			// a second fid on a file two levels below the directory entry that will be renamed: the request's
+			// gated backend call is the Renamed callback on that file, made after RenameAt succeeded
+			if _, err := rn.lockstep(raw, "Twalk", next(), wirecodec.Values{"fid": 1, "newfid": 300 + r.ID, "names": []string{fmt.Sprintf("d%d", r.ID), "a", "sub", "f"}}); err != nil {
+				return nil, err
+			}
+		}
 		// the handle created last by this walk
 		maxID := 0
 		for id := range auto.C.Files() {
@@ -292,6 +299,8 @@ func (rn *runner) run(in *input, si int) (*result, error) {
 					err = raw.Send("Twalk", uint16(tg), wirecodec.Values{"fid": fid, "newfid": 200 + id, "names": []string{"x"}})
 				case "mkdir":
 					err = raw.Send("Tmkdir", uint16(tg), wirecodec.Values{"dfid": fid, "name": "n", "mode": 0o755, "gid": 0})
+				case "renamedeep":
+					err = raw.Send("Trenameat", uint16(tg), wirecodec.Values{"olddirfid": fid, "oldname": "a", "newdirfid": fid, "newname": "b"})
 				case "renameat":
 					err = raw.Send("Trenameat", uint16(tg), wirecodec.Values{"olddirfid": fid, "oldname": "a", "newdirfid": fid, "newname": "b"})
 				}
